@@ -13,6 +13,7 @@ import (
 	"net"
 	"net/http"
 	"os"
+	"strings"
 	"sync"
 	"time"
 
@@ -190,9 +191,27 @@ func Boot(o Options) (*Stack, error) {
 			lastErr = fmt.Errorf("listener on %s did not come up", s.Addr)
 			continue
 		}
+		// make sure it is this Olla that answers on the port (another process may have grabbed it
+		// between FreePort and ListenAndServe)
+		if !isOlla(s.BaseURL) {
+			s.Stop()
+			lastErr = fmt.Errorf("port %s is answered by something else", s.Addr)
+			continue
+		}
 		return s, nil
 	}
 	return nil, fmt.Errorf("boot failed: %w", lastErr)
+}
+
+func isOlla(base string) bool {
+	c := &http.Client{Timeout: 2 * time.Second}
+	resp, err := c.Get(base + "/internal/health")
+	if err != nil {
+		return false
+	}
+	defer resp.Body.Close()
+	b, _ := io.ReadAll(io.LimitReader(resp.Body, 4096))
+	return resp.StatusCode == 200 && strings.Contains(string(b), "status")
 }
 
 // Stop shuts the stack down.
